@@ -15,7 +15,12 @@ def run(ctx):
     runs = [("basic", "mem", 600 if quick else 6000, "core_failures"),
             ("all", "mem", 900 if quick else 12000, "failures"),
             ("all", "db:1", 300 if quick else 3000, "failures"),
-            ("all", "db:64", 300 if quick else 3000, "failures")]
+            ("all", "db:64", 300 if quick else 3000, "failures"),
+            # structured generator for the transitive-firewall-callee bookkeeping (value-neutral
+            # switches between firewalls, tops repaired in different orders)
+            ("tfc", "mem", 500 if quick else 8000, "failures"),
+            ("tfc", "db:4", 150 if quick else 2000, "failures"),
+            ("fw", "mem", 400 if quick else 6000, "failures")]
     total, dis_all, dists, real_fail, samples, hist_total = 0, [], {}, [], [], 0
     for k, (mode, cfg, n, fn) in enumerate(runs):
         d = os.path.join(ctx.rundir, f"{mode}_{cfg.replace(':', '')}")
@@ -38,6 +43,11 @@ def run(ctx):
     hist_total += st["histories"]
     for v in st["c01"] + st["hangs"]:
         real_fail.append({"mode": "all", "cfg": "mem, 8 worker threads", **v})
+    # regression corpus: minimised histories of defects repaired in /repo (known_findings.txt: fixed)
+    for w in ("c01_tfc_aba.txt", "c01_tfc_stale_root_walk.txt", "c01_tfc_stale_root_exec.txt"):
+        status, txt = ec.replay_witness(os.path.join(vlib.VERIF, "witness", w), cyclic=False)
+        if status != "ok":
+            real_fail.append({"mode": "witness " + w, "violation": status, "scenario": txt[-1500:]})
     if real_fail:
         ctx.violation("wrong_answer.json", {"what": "the real engine handed out a value that differs from the from-scratch evaluation (or hung)",
                                             "first": real_fail[0], "count": len(real_fail),
